@@ -1,0 +1,233 @@
+//go:build verif
+
+package evm
+
+// Contracts for the deductive checker in /verif (comment-only; compiled only with -tags verif).
+// C03: signature verification, nonce check + increment and the "no Cosmos-level authorisation data" check of the
+// Ethereum ante chain. Lib specs: /verif/specs/c03/*.spec; message-level contracts: x/evm/types/zz_contracts_c03_verif.go.
+
+/*@
+alias EVMKeeperI github.com/haqq-network/haqq/app/ante/evm.EVMKeeper
+alias DynKeeperI github.com/haqq-network/haqq/app/ante/evm.DynamicFeeEVMKeeper
+alias Signer github.com/ethereum/go-ethereum/core/types.Signer
+
+// keeper interfaces seen by the decorators: store reads, deterministic for a given context (assumed, as in C07)
+func (EVMKeeper).GetParams
+    params ek, ctx
+    pure as evmk_params
+func (DynamicFeeEVMKeeper).ChainID
+    params ek
+    pure as evmk_chainid
+
+// the signer of THIS chain at the height of ctx: built from the chain's own EVM config and chain id
+specfunc ChainSigner(ek EVMKeeperI, ctx Ctx) Signer =
+        make_signer(chaincfg_eth(evmk_params(ek, ctx).ChainConfig, evmk_chainid(ek)), ctx_height(ctx))
+// message k of msgs carries a valid signature for signer s and records the recovered sender
+specfunc SignedBy(m int, s Signer, allowUnprotected bool) bool = typeis(m, "*MsgEthTx")
+        && (allowUnprotected || tx_protected(MsgTx(unbox(m, "*MsgEthTx").Data)))
+        && sender_ok(s, MsgTx(unbox(m, "*MsgEthTx").Data))
+        && unbox(m, "*MsgEthTx").From == addr_hex(sender_of(s, MsgTx(unbox(m, "*MsgEthTx").Data)))
+
+// C03 (a): `next` runs only if EVERY message is an Ethereum tx that is replay-protected (unless the chain allows
+// unprotected txs), whose sender could be recovered with the signer of this chain (its config, ITS chain id, this height),
+// and whose From - the address every later decorator checks and charges - is the hex form of exactly that sender.
+func (EthSigVerificationDecorator).AnteHandle
+    let msgs = tx_msgs(tx)
+    let S = ChainSigner(esvd.evmKeeper, ctx)
+    let allow = evmk_params(esvd.evmKeeper, ctx).AllowUnprotectedTxs
+    requires nonnil: esvd.evmKeeper != nil && tx != nil
+    // messages come from the tx decoder and passed ValidateBasic: non-nil pointers whose tx data unpacks
+    requires wf: forall k int :: 0 <= k && k < len(msgs) && typeis(msgs[k], "*MsgEthTx")
+             ==> unbox(msgs[k], "*MsgEthTx") != nil && unpack_ok(unbox(msgs[k], "*MsgEthTx").Data)
+    modifies heap(MsgEthTx)
+    modifies seq, acc_seq   // only through `next`, which is unknown code
+    call next requires signed: forall k int :: 0 <= k && k < len(msgs) ==> SignedBy(msgs[k], S, allow)
+    call next requires same: tx == old(tx) && ctx == old(ctx) && simulate == old(simulate)
+    call next requires content: forall p *MsgEthTx :: p.Data == old(p.Data) && p.Hash == old(p.Hash) && p.Size_ == old(p.Size_)
+    ensures rejected: (exists k int :: 0 <= k && k < len(msgs) && !(typeis(msgs[k], "*MsgEthTx")
+             && (allow || tx_protected(MsgTx(old(unbox(msgs[k], "*MsgEthTx").Data))))
+             && sender_ok(S, MsgTx(old(unbox(msgs[k], "*MsgEthTx").Data))))) ==> err != nil && newCtx == ctx
+    loop 1 invariant idx: 0 <= #i && #i <= len(msgs)
+    loop 1 invariant frame: tx == old(tx) && ctx == old(ctx) && simulate == old(simulate) && signer == S && evmParams == evmk_params(esvd.evmKeeper, ctx)
+    loop 1 invariant content: forall p *MsgEthTx :: p.Data == old(p.Data) && p.Hash == old(p.Hash) && p.Size_ == old(p.Size_)
+    loop 1 invariant signed: forall k int :: 0 <= k && k < #i ==> SignedBy(msgs[k], S, allow)
+@*/
+
+/*@
+// ------------------------------------------------------------------ C03 (b): nonce check + increment
+// sender account / tx nonce of an Ethereum message object, fixed for the duration of the handler (see `stable`)
+uf msg_sender(m int) Addr
+uf msg_nonce(m int) int
+// the sequence store after the first i messages were accepted: every message bumps its sender by one
+ghost func SeqAfter(s SeqMap, msgs Msgs, i int) SeqMap
+    def ite(i <= 0, s, upd(SeqAfter(s, msgs, i-1), msg_sender(msgs[i-1]), SeqAfter(s, msgs, i-1)[msg_sender(msgs[i-1])] + 1))
+// each of the first i messages carries exactly the sequence its sender has when the message is reached
+ghost func NoncesOK(s SeqMap, msgs Msgs, i int) bool
+    def ite(i <= 0, true, NoncesOK(s, msgs, i-1) && msg_nonce(msgs[i-1]) == SeqAfter(s, msgs, i-1)[msg_sender(msgs[i-1])])
+
+// ---- what NoncesOK / SeqAfter mean
+lemma NoncesPrefix(s SeqMap, msgs Msgs, n int, j int)
+    requires 0 <= j && j <= n && NoncesOK(s, msgs, n)
+    ensures NoncesOK(s, msgs, j)
+    induction n above j
+// sequences never decrease
+lemma SeqMono(s SeqMap, msgs Msgs, j int, n int, a Addr)
+    requires 0 <= j && j <= n
+    ensures SeqAfter(s, msgs, n)[a] >= SeqAfter(s, msgs, j)[a]
+    induction n above j
+// accounts that sent none of the first n messages keep their sequence
+lemma SeqOthers(s SeqMap, msgs Msgs, n int, a Addr)
+    requires forall k int :: 0 <= k && k < n ==> msg_sender(msgs[k]) != a
+    ensures SeqAfter(s, msgs, n)[a] == s[a]
+    induction n above 0
+// REPLAY: a non-empty message list accepted from store s is not accepted again from the store it leaves behind
+lemma ReplayRejected(s SeqMap, msgs Msgs, n int)
+    requires n >= 1 && NoncesOK(s, msgs, n)
+    ensures !NoncesOK(SeqAfter(s, msgs, n), msgs, n)
+    use NoncesPrefix(s, msgs, n, 1)
+    use NoncesPrefix(SeqAfter(s, msgs, n), msgs, n, 1)
+    use SeqMono(s, msgs, 1, n, msg_sender(msgs[0]))
+// two messages of the same sender with no message of that sender in between need consecutive nonces
+lemma ConsecutiveNonces(s SeqMap, msgs Msgs, n int, j int)
+    requires 0 <= j && j + 1 < n && NoncesOK(s, msgs, n) && msg_sender(msgs[j]) == msg_sender(msgs[j+1])
+    ensures msg_nonce(msgs[j+1]) == msg_nonce(msgs[j]) + 1
+    use NoncesPrefix(s, msgs, n, j + 2)
+
+func (EthIncrementSenderSequenceDecorator).AnteHandle
+    let msgs = tx_msgs(tx)
+    requires nonnil: issd.ak != nil && tx != nil
+    // messages come from the tx decoder (non-nil pointers); From was set by EthSigVerificationDecorator (never empty)
+    requires wf: forall k int :: 0 <= k && k < len(msgs) && typeis(msgs[k], "*MsgEthTx")
+             ==> unbox(msgs[k], "*MsgEthTx") != nil && unbox(msgs[k], "*MsgEthTx").From != ""
+    // message objects are not mutated while this handler runs: sender and nonce of a message object are fixed
+    requires stable: forall m int :: typeis(m, "*MsgEthTx") ==>
+             msg_sender(m) == acc_addr(addr_bytes(hex_addr(unbox(m, "*MsgEthTx").From)))
+             && msg_nonce(m) == txd_nonce(unpack_td(unbox(m, "*MsgEthTx").Data))
+    modifies seq, acc_seq
+    call next requires eth: forall k int :: 0 <= k && k < len(msgs) ==> typeis(msgs[k], "*MsgEthTx") && unpack_ok(unbox(msgs[k], "*MsgEthTx").Data)
+    call next requires nonces: NoncesOK(old(seq), msgs, len(msgs))
+    call next requires bumped: seq == SeqAfter(old(seq), msgs, len(msgs))
+    call next requires same: tx == old(tx) && ctx == old(ctx) && simulate == old(simulate)
+    ensures rejected: !NoncesOK(old(seq), msgs, len(msgs)) ==> result.1 != nil && result.0 == ctx
+    ensures rejected_type: (exists k int :: 0 <= k && k < len(msgs) && !typeis(msgs[k], "*MsgEthTx")) ==> result.1 != nil && result.0 == ctx
+    loop 1 invariant idx: 0 <= #i && #i <= len(msgs)
+    loop 1 invariant frame: tx == old(tx) && ctx == old(ctx) && simulate == old(simulate)
+    loop 1 invariant eth: forall k int :: 0 <= k && k < #i ==> typeis(msgs[k], "*MsgEthTx") && unpack_ok(unbox(msgs[k], "*MsgEthTx").Data)
+    loop 1 invariant nonces: NoncesOK(old(seq), msgs, #i)
+    loop 1 invariant bumped: seq == SeqAfter(old(seq), msgs, #i)
+    loop 1 exit use NoncesPrefix(old(seq), msgs, len(msgs), #i + 1)
+@*/
+
+/*@
+// ------------------------------------------------------------------ C03 (c): no Cosmos-level authorisation data on an Ethereum tx
+func (protoTxProvider).GetProtoTx
+    params w
+    pure
+    def proto_of(w)
+// the current base fee: nil (London not active) or a newly allocated big.Int (as in C07)
+func (DynamicFeeEVMKeeper).GetBaseFee
+    params ek, ctx, ethCfg
+    ensures value: result != nil ==> fresh(result)
+
+// gas limit / fee of an Ethereum message object, fixed for the duration of the handler (see `stable`)
+uf msg_gas(m int) int
+uf msg_fee(m int) int
+ghost func SumGas(msgs Msgs, i int) int
+    def ite(i <= 0, 0, SumGas(msgs, i-1) + msg_gas(msgs[i-1]))
+ghost func SumFee(msgs Msgs, i int) int
+    def ite(i <= 0, 0, SumFee(msgs, i-1) + msg_fee(msgs[i-1]))
+
+// the proto transaction carries no Cosmos-level authorisation / fee delegation data
+specfunc NoCosmosAuth(p *ProtoTx) bool = len(p.Signatures) == 0 && len(p.AuthInfo.SignerInfos) == 0
+        && p.AuthInfo.Fee.Payer == "" && p.AuthInfo.Fee.Granter == ""
+        && p.Body.Memo == "" && p.Body.TimeoutHeight == 0 && len(p.Body.NonCriticalExtensionOptions) == 0
+// every message is an Ethereum message with an empty From whose tx data unpacks
+specfunc AllEthNoFrom(msgs Msgs) bool = forall k int :: 0 <= k && k < len(msgs) ==> typeis(msgs[k], "*MsgEthTx")
+        && unbox(msgs[k], "*MsgEthTx").From == "" && unpack_ok(unbox(msgs[k], "*MsgEthTx").Data)
+
+// C03 (c): outside ReCheckTx, `next` runs only for a transaction that carries NO Cosmos-level authorisation or fee
+// delegation data (signatures, signer infos, fee payer, fee granter, memo, timeout height, non-critical options), exactly
+// one extension option, only Ethereum messages with an empty From whose data unpacks, and whose declared fee / gas limit
+// are exactly the sums of the fees / gas limits of the messages (fee in the EVM denomination).
+func (EthValidateBasicDecorator).AnteHandle
+    let ptx = proto_of(tx)
+    let msgs = tx_msgs(tx)
+    let denom = evmk_params(vbd.evmKeeper, ctx).EvmDenom
+    requires nonnil: vbd.evmKeeper != nil && tx != nil
+    // messages come from the tx decoder (non-nil pointers) and passed msg.ValidateBasic in baseapp (txd_wf)
+    requires wf: forall k int :: 0 <= k && k < len(msgs) && typeis(msgs[k], "*MsgEthTx") ==> unbox(msgs[k], "*MsgEthTx") != nil
+             && (unpack_ok(unbox(msgs[k], "*MsgEthTx").Data) ==> txd_wf(unpack_td(unbox(msgs[k], "*MsgEthTx").Data)))
+    requires stable: forall m int :: typeis(m, "*MsgEthTx") && unpack_ok(unbox(m, "*MsgEthTx").Data) ==>
+             msg_gas(m) == txd_gas(unpack_td(unbox(m, "*MsgEthTx").Data)) && msg_fee(m) == txd_fee(unpack_td(unbox(m, "*MsgEthTx").Data))
+    modifies seq, acc_seq   // only through `next`, which is unknown code
+    call next requires nocosmos: ctx_isrecheck(ctx) || (ptx != nil && NoCosmosAuth(ptx))
+    call next requires oneopt: ctx_isrecheck(ctx) || len(ptx.Body.ExtensionOptions) == 1
+    call next requires eth: ctx_isrecheck(ctx) || forall k int :: 0 <= k && k < len(msgs) ==> typeis(msgs[k], "*MsgEthTx")
+             && unbox(msgs[k], "*MsgEthTx").From == "" && unpack_ok(unbox(msgs[k], "*MsgEthTx").Data)
+    call next requires gas: ctx_isrecheck(ctx) || ptx.AuthInfo.Fee.GasLimit == SumGas(msgs, len(msgs))
+    call next requires fee: ctx_isrecheck(ctx) || ptx.AuthInfo.Fee.Amount == cset(coins_zero(), denom, SumFee(msgs, len(msgs)))
+    call next requires same: tx == old(tx) && ctx == old(ctx) && simulate == old(simulate)
+    // ... and a well-formed transaction that violates any of this is rejected with the unchanged context
+    let shaped = !ctx_isrecheck(ctx) && ptx != nil && ptx.Body != nil && ptx.AuthInfo != nil && ptx.AuthInfo.Fee != nil
+    ensures rejected_auth: shaped && !NoCosmosAuth(ptx) ==> result.1 != nil && result.0 == ctx
+    ensures rejected_opts: shaped && len(ptx.Body.ExtensionOptions) != 1 ==> result.1 != nil && result.0 == ctx
+    ensures rejected_msgs: shaped && !AllEthNoFrom(msgs) ==> result.1 != nil && result.0 == ctx
+    ensures rejected_gas: shaped && ptx.AuthInfo.Fee.GasLimit != SumGas(msgs, len(msgs)) ==> result.1 != nil && result.0 == ctx
+    ensures rejected_fee: shaped && ptx.AuthInfo.Fee.Amount != cset(coins_zero(), denom, SumFee(msgs, len(msgs))) ==> result.1 != nil && result.0 == ctx
+    loop 1 invariant idx: 0 <= #i && #i <= len(msgs) && !ctx_isrecheck(ctx)
+    loop 1 invariant frame: tx == old(tx) && ctx == old(ctx) && simulate == old(simulate) && protoTx == ptx && evmDenom == denom && authInfo == ptx.AuthInfo
+    loop 1 invariant nocosmos: ptx != nil && NoCosmosAuth(ptx)
+             && len(ptx.Body.ExtensionOptions) == 1 && ptx.AuthInfo != nil && ptx.AuthInfo.Fee != nil && ptx.Body != nil
+    loop 1 invariant eth: forall k int :: 0 <= k && k < #i ==> typeis(msgs[k], "*MsgEthTx")
+             && unbox(msgs[k], "*MsgEthTx").From == "" && unpack_ok(unbox(msgs[k], "*MsgEthTx").Data)
+    loop 1 invariant gas: txGasLimit == SumGas(msgs, #i)
+    loop 1 invariant fee: txFee == cset(coins_zero(), denom, SumFee(msgs, #i))
+@*/
+
+/*@
+// ------------------------------------------------------------------ C03: the recorded sender is an externally owned account
+// EVM account of an address as seen by the EVM keeper (nil = no account); IsContract: the account has code
+alias EvmAccount github.com/haqq-network/haqq/x/evm/statedb.Account
+// (store read, deterministic for a given context; every call hands out a new object)
+uf evm_has_account(k github.com/haqq-network/haqq/x/evm/statedb.Keeper, ctx Ctx, addr Address) bool
+uf evm_is_contract(k github.com/haqq-network/haqq/x/evm/statedb.Keeper, ctx Ctx, addr Address) bool
+func (github.com/haqq-network/haqq/x/evm/statedb.Keeper).GetAccount
+    params k, ctx, addr
+    ensures found: (result != nil) == evm_has_account(k, ctx, addr)
+    ensures value: result != nil ==> fresh(result) && result.Balance != nil && acct_is_contract(*result) == evm_is_contract(k, ctx, addr)
+func (github.com/haqq-network/haqq/x/evm/statedb.Account).IsContract
+    params acct
+    pure as acct_is_contract
+func github.com/haqq-network/haqq/x/evm/statedb.NewEmptyAccount
+    fresh
+    ensures result != nil && result.Balance != nil
+// creating the (empty) account of a new sender: sequence 0 is stored for it
+func (github.com/haqq-network/haqq/x/evm/types.AccountKeeper).NewAccountWithAddress
+    params ak, ctx, addr
+    modifies acc_seq
+    ensures result != nil && acct_addr(result) == acc_addr(addr)
+// balance check of x/evm/keeper (C07 territory): no effect on the account store
+func github.com/haqq-network/haqq/x/evm/keeper.CheckSenderBalance
+    params balance, txData
+    ensures true
+
+// In CheckTx, `next` runs only if every message is an Ethereum tx with a recorded sender (From not empty) whose EVM
+// account is not a contract (EIP-3607: only externally owned accounts, i.e. key holders, originate transactions).
+func (EthAccountVerificationDecorator).AnteHandle
+    let msgs = tx_msgs(tx)
+    requires nonnil: avd.ak != nil && avd.evmKeeper != nil && tx != nil
+    requires wf: forall k int :: 0 <= k && k < len(msgs) && typeis(msgs[k], "*MsgEthTx") ==> unbox(msgs[k], "*MsgEthTx") != nil
+    modifies seq, acc_seq
+    call next requires eoa: !ctx_ischeck(ctx) || forall k int :: 0 <= k && k < len(msgs) ==> typeis(msgs[k], "*MsgEthTx")
+             && unpack_ok(unbox(msgs[k], "*MsgEthTx").Data) && unbox(msgs[k], "*MsgEthTx").From != ""
+             && !(evm_has_account(avd.evmKeeper, ctx, bytes_addr(addr_bytes(hex_addr(unbox(msgs[k], "*MsgEthTx").From))))
+                  && evm_is_contract(avd.evmKeeper, ctx, bytes_addr(addr_bytes(hex_addr(unbox(msgs[k], "*MsgEthTx").From)))))
+    call next requires same: tx == old(tx) && ctx == old(ctx) && simulate == old(simulate)
+    ensures true
+    loop 1 invariant idx: 0 <= #i && #i <= len(msgs) && ctx_ischeck(ctx)
+    loop 1 invariant frame: tx == old(tx) && ctx == old(ctx) && simulate == old(simulate)
+    loop 1 invariant eoa: forall k int :: 0 <= k && k < #i ==> typeis(msgs[k], "*MsgEthTx")
+             && unpack_ok(unbox(msgs[k], "*MsgEthTx").Data) && unbox(msgs[k], "*MsgEthTx").From != ""
+             && !(evm_has_account(avd.evmKeeper, ctx, bytes_addr(addr_bytes(hex_addr(unbox(msgs[k], "*MsgEthTx").From))))
+                  && evm_is_contract(avd.evmKeeper, ctx, bytes_addr(addr_bytes(hex_addr(unbox(msgs[k], "*MsgEthTx").From)))))
+@*/
